@@ -38,11 +38,11 @@ def check(prog, rep):
     if not mins:
         raise AnalysisError("no minimize() call site")
     for fi, call in mins:
-        _wiring(prog, rep, fi, call)
-        _success_optimal(prog, rep, fi, call)
-    _bounds(prog, rep, {fi.module.name for fi, _c in mins})
-    _x0(prog, rep)
-    _auto(prog, rep)
+        rep.section(_wiring, prog, rep, fi, call)
+        rep.section(_success_optimal, prog, rep, fi, call)
+    rep.section(_bounds, prog, rep, {fi.module.name for fi, _c in mins})
+    rep.section(_x0, prog, rep)
+    rep.section(_auto, prog, rep)
     rep.expect_min("R09.1", 12)
     rep.expect_min("R09.2", 1)
     rep.expect_min("R09.3", 3)
